@@ -83,6 +83,20 @@ class OMapMixin:
             n = SV(z3.If(w.n.t < n.t, w.n.t, n.t), TInt)
         return View(n, lambda i: tuple(w.elem(i) for w in views), "zip")
 
+    def proves(self, fact, timeout_ms=4000):
+        """in-engine proof attempt of an auxiliary fact under the current path condition (sound either way: a failed
+        attempt only means the weaker conditional encoding is used)"""
+        from .types import BACKGROUND
+
+        sol = z3.Solver()
+        sol.set("timeout", timeout_ms)
+        for a in BACKGROUND:
+            sol.add(a)
+        for p_ in self.st.pc:
+            sol.add(p_)
+        sol.add(z3.Not(fact))
+        return sol.check() == z3.unsat
+
     def omap_dom(self, m):
         return specfn.list_elems(m.ty.keys(m))
 
@@ -93,7 +107,18 @@ class OMapMixin:
         return SV(z3.And(ks.length().t >= 0,
                          z3.ForAll([i, j], z3.Implies(z3.And(0 <= i, i < j, j < ks.length().t), ks[SV(i, TInt)].t != ks[SV(j, TInt)].t)),
                          # the ghost domain is the set of the listed keys
-                         z3.ForAll([i], z3.Implies(z3.And(0 <= i, i < ks.length().t), specfn.list_elems(ks).contains(ks[SV(i, TInt)]).t))), TBool)
+                         z3.ForAll([i], z3.Implies(z3.And(0 <= i, i < ks.length().t), specfn.list_elems(ks).contains(ks[SV(i, TInt)]).t)),
+                         # ... and nothing else: every member has a position (explicit witness function: no matching loop)
+                         self._pos_fact(ks)), TBool)
+
+    def _pos_fact(self, ks):
+        from .types import _san
+
+        x = z3.Const("x!pos", ks.ty.elem.sort())
+        pos = specfn.ufn("pos_" + _san(ks.ty.name), ks.ty.sort(), ks.ty.elem.sort(), z3.IntSort())
+        px = pos(ks.t, x)
+        mem = specfn.list_elems(ks).contains(SV(x, ks.ty.elem)).t
+        return z3.ForAll([x], z3.Implies(mem, z3.And(px >= 0, px < ks.length().t, ks[SV(px, TInt)].t == x)), patterns=[mem])
 
     # ---------------- element access ----------------
     def omap_get(self, m, k, node):
@@ -160,17 +185,28 @@ class OMapMixin:
             ty = TOMap(k.ty, v.ty)
             r = ty.fresh("dcomp")
             ks = ty.keys(r)
-            # the encoding below is only right when the produced keys are pairwise distinct (no collapsing): an obligation
+            # Python semantics: duplicate keys collapse (first position, last value).  Facts that hold in every case:
+            #   every produced key is in the domain, and every domain key has the value produced for SOME occurrence of it;
+            # the positional facts (keys[i] == k(i), value v(i)) are given only under the hypothesis that the keys are
+            # pairwise distinct -- the solver has to establish it (e.g. from the well-formedness of the source dict).
             j = z3.Int(f"j!v{self.fresh_id()}")
             k_j = z3.substitute(k.t, (i, j))
-            self.oblige("dictcomp.distinct", z3.ForAll([i, j], z3.Implies(z3.And(guard, z3.substitute(guard, (i, j)), i < j), k.t != k_j)), e,
-                        "keys produced by a dict comprehension must be pairwise distinct (otherwise entries collapse)")
-            self.st.pc.append(ks.length().t == view.n.t)
-            self.st.pc.append(z3.ForAll([i], z3.Implies(guard, z3.And(ks[SV(i, TInt)].t == k.t, ty.at(r, k).t == v.t,
-                                                                      specfn.list_elems(ks).contains(k).t)),
-                                       patterns=[ks[SV(i, TInt)].t] + self._src_patterns))
+            distinct = z3.ForAll([i, j], z3.Implies(z3.And(guard, z3.substitute(guard, (i, j)), i < j), k.t != k_j))
             self.st.pc.append(self.omap_wf(r).t)
-            # (the converse -- every key of the domain is a produced key -- is left out: it makes a matching loop)
+            self.st.pc.append(z3.ForAll([i], z3.Implies(guard, specfn.list_elems(ks).contains(k).t), patterns=self._src_patterns or None))
+            y = z3.Const(f"y!d{self.fresh_id()}", k.ty.sort())
+            self.st.pc.append(z3.ForAll([y], z3.Implies(specfn.list_elems(ks).contains(SV(y, k.ty)).t,
+                                                        z3.Exists([i], z3.And(guard, y == k.t, z3.Select(ty.arr(r), y) == v.t))),
+                                        patterns=[z3.Select(ty.arr(r), y)]))
+            positional = z3.And(
+                ks.length().t == view.n.t,
+                z3.ForAll([i], z3.Implies(guard, z3.And(ks[SV(i, TInt)].t == k.t, ty.at(r, k).t == v.t)),
+                          patterns=[ks[SV(i, TInt)].t] + self._src_patterns))
+            if self.proves(distinct):
+                # established here and now: later queries get the positional facts without the nested-quantifier hypothesis
+                self.st.pc.append(positional)
+            else:
+                self.st.pc.append(z3.Implies(distinct, positional))
             return r
         if kind in ("list", "gen"):
             i, guard, (v,) = self._eval_under(view, g.target, [e.elt], g.ifs)
@@ -190,7 +226,9 @@ class OMapMixin:
             elif isinstance(x, (tuple, list)):
                 elems.append(self._tuple_type(x))
             elif x is None:
-                raise Unsupported("None inside a tuple of unknown type")
+                from .types import TAbs, TOpt as _TOpt
+
+                elems.append(_TOpt(TAbs("Nothing")))
             else:
                 elems.append(lift(x).ty)
         return TTuple(elems)
